@@ -74,6 +74,13 @@ class WitnessMixin:
             keys = self.mval(ctx, z3.Select(st.heap.get("$dkeys", z3.Const("H0_$dkeys", field_sort("$dkeys"))), z3.IntVal(r)))
             mp = z3.Select(st.heap.get("$dmap", z3.Const("H0_$dmap", field_sort("$dmap"))), z3.IntVal(r))
             ks = self.seq_items(ctx, keys)
+            try:
+                has = self.mval(ctx, z3.Select(st.heap.get("$dhas", z3.Const("H0_$dhas", field_sort("$dhas"))), z3.IntVal(r)))
+                extra = self.array_true_keys(ctx, has)
+                ks = ks + [k for k in extra if not any(k.eq(x) for x in ks)]
+                ks = [k for k in ks if z3.is_true(self.mval(ctx, z3.Select(has, k)))]
+            except Exception:
+                pass
             o["items"] = [[self.conc_val(ctx, k, key_type(ty), depth + 1),
                            self.conc_val(ctx, self.mval(ctx, z3.Select(mp, k)), elem_type(ty), depth + 1)] for k in ks]
         elif bt in self.reg.classes:
@@ -85,6 +92,14 @@ class WitnessMixin:
                         fields[f] = self.conc_val(ctx, self.mval(ctx, z3.Select(arr, z3.IntVal(r))), ft, depth + 1)
             o["fields"] = fields
         return {"$ref": r}
+
+    def array_true_keys(self, ctx, arr):
+        out = []
+        while z3.is_app(arr) and arr.decl().name() == "store":
+            if z3.is_true(arr.arg(2)):
+                out.append(arr.arg(1))
+            arr = arr.arg(0)
+        return out
 
     def seq_items(self, ctx, seq):
         n = self.mval(ctx, z3.Length(seq)).as_long()
